@@ -756,7 +756,11 @@ RestartNode(n, d) ==
 Restart(n) ==
   /\ Journal /\ ~node[n].alive /\ "disk" \in DOMAIN node[n]
   /\ node' = [node EXCEPT ![n] = RestartNode(n, node[n].disk)]
-  /\ UNCHANGED <<chan, alive, up, cbs, nexc, snaps>>
+  \* modelling assumption: by the time a process has been started again, whatever its previous incarnation had sent
+  \* has been read or dropped by the peers (request ids start from 1 again after a restart: a reply to the previous
+  \* incarnation that is still on its way could be matched to a new request - not explored)
+  /\ chan' = [chan EXCEPT ![n] = [j \in Nodes |-> <<>>]]
+  /\ UNCHANGED <<alive, up, cbs, nexc, snaps>>
 
 (* the forked dump writer finishes: the dump file is replaced atomically by the snapshot of the state at fork time *)
 ChildDone(n, orc) ==
